@@ -257,6 +257,9 @@ panic_finding("lowering-literal-row-unwrap", "prqlc/src/semantic/lowering.rs", "
 panic_finding("transforms-lineage-unwrap", "prqlc/src/semantic/resolver/transforms.rs", "called `Result::unwrap()` on an `Err` value",
  "from t2 | select {a, b} | window ((rank a) > from) | select {a}", "compile / pl_to_rq",
  "`lineage_or_default(body).unwrap()` in infer_lineage: the body of a `window` / `group` pipeline is not a relation (e.g. a comparison) - `expected .. to have table type` is unwrapped instead of returned (found by token mutation at seed 3).")
+panic_finding("gen-query-unreachable", "prqlc/src/sql/gen_query.rs", "internal error: entered unreachable code",
+ "RQ JSON of a two-relation program in which a transform of the main pipeline was replaced by one the SQL back-end does not expect at that place", "rq_to_sql on an RQ JSON document",
+ "`unreachable!()` in the translation of a pipeline to a SELECT: the RQ deserialises but is not one the resolver emits (found by RQ JSON mutation at seed 8).", input_kind="rq-json")
 panic_finding("transforms-unwrap", "prqlc/src/semantic/resolver/transforms.rs", "called `Option::unwrap()` on a `None` value",
  "PL JSON of `let distinct = rel -> (from t = _param.rel | group {t.*} (take 1))` with a span edited", "pl_to_rq on a PL JSON document or compile of a source",
  "`infer_type` unwraps the type of a transform's input / pipeline (`transform_call.input.ty`, a `group` pipeline's body): absent for a PL JSON document with edited nodes (libFuzzer target json_pl) and for `group {f, a} (take -> 1)`, where the pipeline is a lambda (token mutation, seed 7).")
